@@ -130,6 +130,7 @@ ATTR = [
     (r"^leftover-tasks$", ["C11"]),
     (r"^after-top-", ["C11", "C13"]),
     (r"^bad-root-begin$", ["C02"]),
+    (r"^build-raises$", ["C19", "C18", "C16", "C15"]),
     (r"^user-cancel-other$", ["C11"]),
     (r"^alien-job-run$", ["C02", "C01", "C17"]),
     (r"^alien-job-shutdown$", ["C13", "C17"]),
